@@ -11,6 +11,7 @@
 -/
 import Props.Tables
 import Proofs.EvalSafe
+import Proofs.ApiGlue
 namespace Jmes.Props
 open Jmes Jmes.Interp
 
@@ -52,6 +53,48 @@ theorem C05_atoi_is_64_bit (s : Bytes) (v : Int) (h : Parser.atoi s = some v) : 
     unfold Slice.InRange; unfold Parser.minInt64 Parser.maxInt64 at hr
     omega
   · exact absurd hw (by simp)
+
+/-- The character tables found in /repo's source are safe: the guard
+    `r >= 128` keeps every index into `identifierTrailingBits` in range, and no
+    single-character token is tEOF. -/
+theorem C05_generated_lex_tables_safe : Lexer.TablesSafe Model.lexTables := by
+  refine ⟨by decide, ?_⟩
+  intro kv hkv
+  simp only [Model.lexTables, Generated.basicTokens] at hkv
+  simp only [List.mem_cons, List.not_mem_nil, or_false] at hkv
+  rcases hkv with rfl | rfl | rfl | rfl | rfl | rfl | rfl | rfl | rfl | rfl <;> simp
+
+theorem C05_generated_eof_power : Generated.table.power .eof = 0 := by decide
+
+/-- `Compile` never panics and always returns, for ANY byte string (valid
+    UTF-8 or not): the lexer consumes at least one byte per step, the token
+    cursor is never read out of range, the fuel of the Pratt parser (a bound on
+    its recursion) always suffices. -/
+theorem C05_compile_never_panics (expr : Bytes) : (Api.compile (N := N) Model.cfg expr).isPanic = false := by
+  rw [Api.compile_eq_parseWith]
+  show (Parser.parseWith Model.lexTables Generated.table expr : Res (Node N)).isPanic = false
+  have := Parser.parseWith_ok (N := N) (tbl := Generated.table) Model.lexTables C05_generated_lex_tables_safe
+    C05_generated_eof_power expr
+  cases h : (Parser.parseWith Model.lexTables Generated.table expr : Res (Node N)) with
+  | ok e => rfl
+  | err e => rfl
+  | panic s => rw [h] at this; exact this.elim
+
+/-- End to end: the one-shot `Search` never panics and always returns, for any
+    bytes as the expression and any document. -/
+theorem C05_search_never_panics (expr : Bytes) (doc : Val N) : (Api.search Model.cfg expr doc).isPanic = false := by
+  unfold Api.search
+  rw [Api.compile_eq_parseWith]
+  have := Parser.parseWith_ok (N := N) (tbl := Generated.table) Model.lexTables C05_generated_lex_tables_safe
+    C05_generated_eof_power expr
+  show (match (Parser.parseWith Model.lexTables Generated.table expr : Res (Node N)) with
+    | .ok ast => eval Generated.functionTable ast doc
+    | .err e => .err e
+    | .panic s => .panic s).isPanic = false
+  cases h : (Parser.parseWith Model.lexTables Generated.table expr : Res (Node N)) with
+  | ok e => rw [h] at this; exact C05_execute_never_panics e this doc
+  | err e => rfl
+  | panic s => rw [h] at this; exact this.elim
 
 /-! Non-vacuity: a nested expression with a by-expression function and a
     slice with an extreme step satisfies the hypothesis. -/
